@@ -437,9 +437,26 @@ impl RuntimeEnvBuilder {
         )))
     }
 
+    /// Returns the [`DiskManagerBuilder`] to customize. If there is none yet
+    /// but there is an existing [`DiskManager`] (see [`Self::from_runtime_env`]),
+    /// the new builder starts with the limits of that disk manager, so that
+    /// changing one setting does not reset the others to their defaults.
+    fn take_disk_manager_builder(&mut self) -> DiskManagerBuilder {
+        if let Some(builder) = self.disk_manager_builder.take() {
+            return builder;
+        }
+        let builder = DiskManagerBuilder::default();
+        match &self.disk_manager {
+            Some(disk_manager) => builder
+                .with_max_temp_directory_size(disk_manager.max_temp_directory_size())
+                .with_max_spill_merge_fan_in(disk_manager.max_spill_merge_fan_in()),
+            None => builder,
+        }
+    }
+
     /// Use the specified path to create any needed temporary files
     pub fn with_temp_file_path(mut self, path: impl Into<PathBuf>) -> Self {
-        let builder = self.disk_manager_builder.take().unwrap_or_default();
+        let builder = self.take_disk_manager_builder();
         self.with_disk_manager_builder(
             builder.with_mode(DiskManagerMode::Directories(vec![path.into()])),
         )
@@ -447,7 +464,7 @@ impl RuntimeEnvBuilder {
 
     /// Specify a limit on the size of the temporary file directory in bytes
     pub fn with_max_temp_directory_size(mut self, size: u64) -> Self {
-        let builder = self.disk_manager_builder.take().unwrap_or_default();
+        let builder = self.take_disk_manager_builder();
         self.with_disk_manager_builder(builder.with_max_temp_directory_size(size))
     }
 
@@ -455,7 +472,7 @@ impl RuntimeEnvBuilder {
     ///
     /// A value of 0 means unlimited.
     pub fn with_max_spill_merge_fan_in(mut self, fan_in: usize) -> Self {
-        let builder = self.disk_manager_builder.take().unwrap_or_default();
+        let builder = self.take_disk_manager_builder();
         self.with_disk_manager_builder(builder.with_max_spill_merge_fan_in(fan_in))
     }
 
